@@ -12,7 +12,12 @@ Small == { RS("entry", <<Tok("attrs", 0, "", <<EAttr("n1", <<"s1">>)>>)>>, <<>>)
            RS("done", <<Tok("code", 1, "", <<>>)>>, <<Tok("ctls", 0, "", <<C("paging", "", FALSE, 2, "k1", Unset, Unset, Unset, "")>>)>>),
            RS("extended", <<>>, <<Tok("code", 2, "", <<>>)>>), RS("bind", <<Tok("code", 0, "", <<>>)>>, <<>>), RS("modify", <<>>, <<>>) }
 Scripts == {<<a, b>> : a \in Small, b \in Small} \cup {<<a, b, c>> : a \in Small, b \in Small, c \in Small}
-Vectors == {[resps |-> <<rs>>] : rs \in Singles} \cup {[resps |-> s] : s \in Scripts}
+\* one response object written twice or three times, with setters before, between and after the writes
+W == Tok("write", 0, "", <<>>)
+Of(k) == {t \in SetToks : HasSetter(k, t.o)}
+Rewrites == UNION {{RS(k, <<>>, <<W, b>>) : b \in Of(k)} \cup {RS(k, <<>>, <<a, W, b>>) : a \in Of(k), b \in Of(k)}
+                   \cup {RS(k, <<Tok("code", 1, "", <<>>)>>, <<a, W, b, W>>) : a \in Of(k), b \in Of(k)} : k \in Kinds}
+Vectors == {[resps |-> <<rs>>] : rs \in Singles} \cup {[resps |-> s] : s \in Scripts} \cup {[resps |-> <<rs>>] : rs \in Rewrites}
 GNext == UNCHANGED rvars
 ASSUME ndJsonSerialize(IOEnv.OUT, SetToSeq(Vectors))
 ASSUME PrintT(<<"VECTORS", Cardinality(Vectors)>>)
